@@ -148,4 +148,132 @@ def mu (c : Cfg) (s : State) : Nat :=
   srcW c s.src + (if s.ch1Closed then 0 else 1) + snapW s.snapper + routerW c s.router +
   countNotDone s.wDone c.targets + (if s.returned then 0 else 1)
 
+/-! ### the concurrency skeleton this model was written for
+
+What `trgen skel` extracts from `processing/processing.go` and `processing/gpkg/gpkg.go` (channel creation, goroutine starts,
+sends, receives, closes, wait-group calls, defers, the loop/branch structure around them, the paging test of `WriteFeatures`
+and the slice a row is built in by `writeFeatures`). `Properties/C10.lean` proves `Gen.Skel.skeleton = assumedSkeleton`
+by `decide` on every run; a moved `close`, a removed `wg.Wait()`, a buffered channel, a changed paging test or an append to
+the shared `Columns()` slice changes the extracted list. -/
+def assumedSkeleton : List String := [
+  "func ProcessFeatures",
+  "make-chan unbuffered",
+  "make-chan unbuffered",
+  "wg.Add",
+  "go func {",
+  "defer wg.Done()",
+  "call writeFeaturesToTargets",
+  "}",
+  "go processFeatures",
+  "go readFeaturesFromSource",
+  "wg.Wait",
+  "end",
+  "func readFeaturesFromSource",
+  "call ReadFeatures",
+  "end",
+  "func processFeatures",
+  "for {",
+  "recv featuresIn",
+  "if !hasMore {",
+  "break",
+  "}",
+  "case geom.Polygon {",
+  "call f",
+  "range newPolygonsPerTileMatrix {",
+  "if len(newPolygons) == 0 {",
+  "panic",
+  "}",
+  "send featuresOut",
+  "call wrapFeatureForTileMatrix",
+  "}",
+  "}",
+  "case geom.MultiPolygon {",
+  "call processMultiPolygon",
+  "range newMultiPolygonPerTileMatrix {",
+  "send featuresOut",
+  "call wrapFeatureForTileMatrix",
+  "}",
+  "}",
+  "default {",
+  "range tmIDs {",
+  "send featuresOut",
+  "call wrapFeatureForTileMatrix",
+  "}",
+  "}",
+  "}",
+  "close featuresOut",
+  "end",
+  "func writeFeaturesToTargets",
+  "range targets {",
+  "make-chan unbuffered",
+  "wg.Add",
+  "go func {",
+  "defer wg.Done()",
+  "call WriteFeatures",
+  "}",
+  "}",
+  "for {",
+  "recv featuresForTileMatrices",
+  "if !ok {",
+  "break",
+  "}",
+  "if channel == nil {",
+  "panic",
+  "}",
+  "send channel",
+  "}",
+  "range targetChannels {",
+  "close targetChannel",
+  "}",
+  "wg.Wait",
+  "end",
+  "func processMultiPolygon",
+  "range multiPolygon {",
+  "call f",
+  "}",
+  "return",
+  "end",
+  "func ReadFeatures",
+  "call Columns",
+  "for rows.Next() {",
+  "send features",
+  "}",
+  "close features",
+  "defer rows.Close()",
+  "end",
+  "func WriteFeatures",
+  "for {",
+  "recv inFeatures",
+  "if !hasMore {",
+  "call writeFeatures",
+  "break",
+  "}",
+  "append append(features, feature)",
+  "if len(features)%target.pagesize == 0 {",
+  "call writeFeatures",
+  "reset features",
+  "}",
+  "}",
+  "end",
+  "func writeFeatures",
+  "call Begin",
+  "range features {",
+  "make-slice make([]interface{}, 0, len(f.Columns())+1)",
+  "call Columns",
+  "append append(data, f.Columns()...)",
+  "call Columns",
+  "append append(data, sb)",
+  "call Exec",
+  "if ext == nil {",
+  "if err != nil {",
+  "reset ext",
+  "continue",
+  "}",
+  "}",
+  "}",
+  "call Commit",
+  "end"
+]
+
+
 end Texel.Pipe
